@@ -1,8 +1,9 @@
 CONSTANTS
   Runs = {"A", "B"}
+  Shared = {"A2"}
   MaxRows = 2
   MaxSaves = 2
-  AppendInPlace = FALSE
+  AppendInPlace = "prefix"
   Crashes = TRUE
   CrossCheck = TRUE
   SqlDeleteInTxn = FALSE
